@@ -5,6 +5,7 @@ import (
 	"os"
 	"path/filepath"
 	"strings"
+	"sync"
 	"time"
 
 	"github.com/paulsonkoly/calc/parser"
@@ -26,7 +27,24 @@ import (
 // expectation), and file mode is compared with the in-process
 // statement-by-statement execution of the same statements.
 
-const replBanner = "calc repl\n"
+// replBanner is what the REPL prints before the first prompt. It is not part of the property: it is
+// learned from the binary under test (a REPL run with empty input), once per worker.
+var (
+	replBannerOnce sync.Once
+	replBannerText = "calc repl\n"
+)
+
+func replBannerOf() string {
+	replBannerOnce.Do(func() {
+		if bin := calcrun.CalcBinary(); bin != "" {
+			p := calcrun.RunCalc(bin, nil, []byte(""), "", 20*time.Second)
+			if !p.TimedOut && p.Exit == 0 {
+				replBannerText = p.Stdout
+			}
+		}
+	})
+	return replBannerText
+}
 
 func scratchFile(name string, content string) (string, func()) {
 	dir := os.Getenv("VERIF_DIR")
@@ -166,7 +184,7 @@ func c16Script(ctx *core.Ctx, idx int) core.Result {
 		return res
 	}
 	wantFile := ""
-	wantRepl := replBanner
+	wantRepl := replBannerOf()
 	for i := range stmts {
 		wantFile += want[i].Out
 		wantRepl += want[i].Out + "> " + val.Display(want[i].Value) + "\n"
@@ -318,7 +336,7 @@ func c16Eval(ctx *core.Ctx, idx int) core.Result {
 	}
 	outs["-eval"] = strings.TrimSuffix(pe.Stdout, val.Render(w.Value)+"\n")
 	outs["file"] = pf.Stdout
-	outs["repl"] = strings.TrimSuffix(strings.TrimPrefix(pr.Stdout, replBanner), "> "+val.Display(w.Value)+"\n")
+	outs["repl"] = strings.TrimSuffix(strings.TrimPrefix(pr.Stdout, replBannerOf()), "> "+val.Display(w.Value)+"\n")
 	for _, m := range []string{"-eval", "file", "repl"} {
 		if outs[m] != w.Out {
 			return fail("mode-equivalence", fmt.Sprintf("%s mode printed %q (raw %q), the statement prints %q", m, trunc(outs[m], 300), trunc(map[string]string{"-eval": pe.Stdout, "file": pf.Stdout, "repl": pr.Stdout}[m], 300), trunc(w.Out, 300)))
@@ -395,7 +413,7 @@ func c16EvalMulti(ctx *core.Ctx, idx int) core.Result {
 			return core.Result{Verdict: core.Dropped, Reason: "juxtaposition does not parse into the same statements"}
 		}
 	}
-	wantEval, wantRepl, wantFile := "", replBanner, ""
+	wantEval, wantRepl, wantFile := "", replBannerOf(), ""
 	k := 0
 	for i := range texts {
 		if i == refusedAt {
